@@ -1297,9 +1297,14 @@ class ClassicChannel(utils.EventEmitter):
             return await self.disconnection_result
 
     def abort(self) -> None:
-        if self.state == self.State.OPEN:
+        if self.state in (self.State.OPEN, self.State.WAIT_DISCONNECT):
             self._change_state(self.State.CLOSED)
             self.emit(self.EVENT_CLOSE)
+        if self.disconnection_result:
+            # The response will never come: release whoever awaits disconnect()
+            if not self.disconnection_result.done():
+                self.disconnection_result.set_result(None)
+            self.disconnection_result = None
 
     def send_configure_request(self) -> None:
         options: list[tuple[int, bytes]] = [
@@ -2250,6 +2255,8 @@ class ChannelManager:
             for future, _ in pending_credit_based_connections.values():
                 if not future.done():
                     future.cancel("ACL disconnected")
+        for key in [key for key in self.le_coc_requests if key[0] == connection_handle]:
+            del self.le_coc_requests[key]
         self.identifiers.pop(connection_handle, None)
 
     def send_pdu(
@@ -2953,6 +2960,10 @@ class ChannelManager:
             logger.exception('connection failed')
             del connection_channels[source_cid]
             raise
+
+        # The link may have gone away since the response was received
+        if channel.state != LeCreditBasedChannel.State.CONNECTED:
+            raise InvalidStateError('channel closed while connecting')
 
         # Remember the channel by source CID and destination CID
         le_connection_channels = self.le_coc_channels.setdefault(connection.handle, {})
